@@ -216,7 +216,7 @@ func pureCalleeBasic(c *ssa.CallCommon) bool {
 		return true
 	}
 	n := calleeName(c)
-	for _, p := range []string{"strings.", "bytes.", "strconv.", "path.", "path/filepath.", "unicode", "errors.", "fmt.Sprintf", "fmt.Errorf", "fmt.Sprint", "net.SplitHostPort", "net.JoinHostPort", "net.ParseIP", "time.ParseDuration", "os.Getenv", "sort.", "math.", "(*bytes.Buffer).Len", "(*bytes.Buffer).Bytes", "(*bytes.Buffer).String", "encoding/binary.", "(*bufio.Scanner).Text", "net/url.", "net/http.StatusText", "log."} {
+	for _, p := range []string{"strings.", "bytes.", "strconv.", "path.", "path/filepath.", "unicode", "errors.", "fmt.Sprintf", "fmt.Errorf", "fmt.Sprint", "net.SplitHostPort", "net.JoinHostPort", "net.ParseIP", "time.ParseDuration", "os.Getenv", "sort.", "math.", "(*bytes.Buffer).Len", "(*bytes.Buffer).Bytes", "(*bytes.Buffer).String", "encoding/binary.", "(encoding/binary.bigEndian).Uint", "(encoding/binary.littleEndian).Uint", "slices.Contains", "slices.Index", "slices.Equal", "cmp.", "(*bufio.Scanner).Text", "net/url.", "net/http.StatusText", "log."} {
 		if strings.HasPrefix(n, p) {
 			return true
 		}
@@ -942,6 +942,39 @@ func (p *prover) interval(v ssa.Value, d int) (lo, hi *int64) {
 			if all && l != nil {
 				return l, h
 			}
+			// range summary: the interval of every value the function can return, computed inside the callee
+			// from types and constants alone (e.g. a big-endian decoder returning int(b[0])<<8 | int(b[1]))
+			if d < 4 {
+				q := newProver(f)
+				var sl, sh *int64
+				okAll := true
+				for i, rv := range returnValues(f, 0) {
+					rl, rh := q.interval(rv, d+3)
+					if i == 0 {
+						sl, sh = rl, rh
+					} else {
+						if sl != nil && (rl == nil || *rl < *sl) {
+							sl = rl
+						}
+						if sh != nil && (rh == nil || *rh > *sh) {
+							sh = rh
+						}
+					}
+					if rl == nil && rh == nil {
+						okAll = false
+					}
+				}
+				if okAll && (sl != nil || sh != nil) {
+					// intersect with the type's own range
+					if sl == nil {
+						sl = tlo
+					}
+					if sh == nil {
+						sh = thi
+					}
+					return sl, sh
+				}
+			}
 		}
 	case *ssa.Phi:
 		var l, h *int64
@@ -1124,6 +1157,16 @@ func (p *prover) addGuard(g guardInfo) {
 			}
 		}
 		one := newLin(1)
+		// positions of different bytes in one string differ: for x = Index(s, "<") and y = Index(s, ">") a
+		// non-strict order between them is a strict one
+		if distinctBytePositions(p, t.X, t.Y) {
+			switch op {
+			case token.LEQ:
+				op = token.LSS
+			case token.GEQ:
+				op = token.GTR
+			}
+		}
 		switch op {
 		case token.LSS:
 			p.ge(b.add(one, -1), a)
@@ -1389,4 +1432,32 @@ func boundsGoals(p *prover, in ssa.Instruction) (goals []linExpr, descs []string
 		}
 	}
 	return nil, nil, "", ""
+}
+
+// distinctBytePositions: x and y are strings.Index / IndexByte / LastIndex results for two different single-byte
+// needles in the same string (same canonical argument).  Whenever both are valid positions they cannot coincide.
+func distinctBytePositions(p *prover, x, y ssa.Value) bool {
+	needle := func(v ssa.Value) (ssa.Value, string, bool) {
+		c, ok := p.canon(v).(*ssa.Call)
+		if !ok {
+			return nil, "", false
+		}
+		switch calleeName(&c.Call) {
+		case "strings.Index", "strings.LastIndex":
+			if s, ok := constString(c.Call.Args[1]); ok && len(s) == 1 {
+				return c.Call.Args[0], s, true
+			}
+		case "strings.IndexByte", "strings.LastIndexByte":
+			if n, ok := constInt(c.Call.Args[1]); ok {
+				return c.Call.Args[0], string(rune(n)), true
+			}
+		}
+		return nil, "", false
+	}
+	sx, nx, okx := needle(x)
+	sy, ny, oky := needle(y)
+	if !okx || !oky || nx == ny {
+		return false
+	}
+	return p.atomFor(sx) == p.atomFor(sy)
 }
